@@ -5,7 +5,7 @@ import VivModel.ValEq
 
 Transcribed from `vivarium/processes/timeline.py` (`nested_set`,
 `TimelineProcess.initialize_timeline`, `ports_schema`, `next_update`),
-`vivarium/library/dict_utils.py` (`deep_merge_combine_lists`) and — for one timeline process
+`vivarium/library/dict_utils.py` (`deep_merge_combine_lists`, used for `timeline_ports`) and — for one timeline process
 driven by `Engine.update(interval)` — the part of `Engine.run_for` that schedules it
 (`vivarium/core/engine.py`) and the leaf branch of `Store.apply_update`
 (`vivarium/core/store.py`) that applies `{'_value': v, '_updater': 'set'}`.
@@ -55,32 +55,9 @@ def insertEvent (new : Event) : List Event → List Event
 def initializeTimeline (es : List Event) : List Event :=
   es.foldl (fun tl e => insertEvent e tl) []
 
-/-- Port names in the dictionary returned by `ports_schema`: the first path element of every
-driven variable in order of first appearance (`deep_merge_combine_lists` into
-`timeline_ports`, minus `global`), then `global` (added by `schema.update`).  An empty path
-raises (`state[0]` on an empty tuple: IndexError). -/
-def portFirsts : List Event → Except Err (List String)
-  | [] => .ok []
-  | e :: rest =>
-    match e.changes.mapM (fun pv => match pv.1 with
-        | [] => Except.error Err.exception
-        | k :: _ => Except.ok k), portFirsts rest with
-    | .ok a, .ok b => .ok (a ++ b)
-    | .error err, _ => .error err
-    | _, .error err => .error err
-
-def schemaPorts (tl : List Event) : Except Err (List String) :=
-  match portFirsts tl with
-  | .error e => .error e
-  | .ok firsts =>
-    .ok ((firsts.foldl (fun acc k => if k = "global" ∨ k ∈ acc then acc else acc ++ [k]) [])
-          ++ ["global"])
-
-/-! ## `next_update` -/
-
 /-- `deep_merge_combine_lists(dct, merge_dct)` (returns the mutated `dct`): dictionaries are
 merged recursively, two lists are combined without repeating values, anything else is
-overwritten. -/
+overwritten.  `initialize_timeline` uses it to collect `timeline_ports`. -/
 def combineLists (a : List Val) : List Val → List Val
   | [] => a
   | i :: rest => combineLists (if i.pyIn a then a else a ++ [i]) rest
@@ -95,27 +72,54 @@ def dmcl (dct : KVs) : KVs → KVs
       | _, _ => v
     dmcl (KV.set k merged dct) rest
 
+/-- `self.timeline_ports`: starting from `{'global': ['time']}`, every driven variable `state`
+adds `{state[0]: [state[1:]]}` with `deep_merge_combine_lists` (a tuple `state[1:]` is written as
+the list of its strings).  An empty path raises (`state[0]` on an empty tuple: IndexError). -/
+def timelinePorts : KVs → List Path → Except Err KVs
+  | ports, [] => .ok ports
+  | _, [] :: _ => .error .exception
+  | ports, (k :: sub) :: rest =>
+    timelinePorts (dmcl ports [(k, .list [.list (sub.map Val.str)])]) rest
+
+/-- Port names in the dictionary returned by `ports_schema`: the keys of `timeline_ports`
+other than `global`, then `global` (added by `schema.update`). -/
+def schemaPorts (tl : List Event) : Except Err (List String) :=
+  match timelinePorts [("global", .list [.str "time"])]
+      (tl.flatMap fun e => e.changes.map (·.1)) with
+  | .error e => .error e
+  | .ok ports => .ok ((KV.keys ports).filter (fun k => k != "global") ++ ["global"])
+
+/-! ## `next_update` -/
+
 /-- `{'_value': value, '_updater': 'set'}` -/
 def leafSet (v : Val) : Val := .dict [("_value", v), ("_updater", .str "set")]
 
-/-- `nested_set({}, k :: rest, value)`: the chain `{k: {… {last: value}}}` -/
-def chain (k : String) : Path → Val → KVs
-  | [], v => [(k, v)]
-  | k2 :: rest, v => [(k, .dict (chain k2 rest v))]
+/-- `nested_set(dic, keys, value)` (returns the mutated `dic`): `setdefault(key, {})` along
+`keys[:-1]`, then `dic[keys[-1]] = value`.  An empty `keys` raises IndexError (`keys[-1]`); a
+non-dictionary met on the way raises AttributeError (`.setdefault`) or, at the last key,
+TypeError (item assignment). -/
+def nestedSet : KVs → Path → Val → Except Err KVs
+  | _, [], _ => .error .exception
+  | d, [k], v => .ok (KV.set k v d)
+  | d, k :: k2 :: rest, v =>
+    match KV.lookup k d with
+    | Option.none =>
+      match nestedSet [] (k2 :: rest) v with
+      | .ok sub => .ok (KV.set k (.dict sub) d)
+      | .error e => .error e
+    | some (.dict sub) =>
+      match nestedSet sub (k2 :: rest) v with
+      | .ok sub' => .ok (KV.set k (.dict sub') d)
+      | .error e => .error e
+    | some _ => if rest.isEmpty then .error .typeError else .error .attributeError
 
-/-- `update_at_path` after `nested_set(update_at_path, path_to_variable, update_value)`;
-an empty path raises (`keys[-1]` on an empty tuple: IndexError). -/
-def changeTree (p : Path) (v : Val) : Except Err KVs :=
-  match p with
-  | [] => .error .exception
-  | k :: rest => .ok (chain k rest (leafSet v))
-
-/-- the `for path_to_variable, value in change_dict.items()` loop -/
+/-- the `for path_to_variable, value in change_dict.items()` loop: each variable's entry is set
+directly in the accumulated update, so a later write replaces an earlier one -/
 def applyChanges (upd : KVs) : Changes → Except Err KVs
   | [] => .ok upd
   | (p, v) :: rest =>
-    match changeTree p v with
-    | .ok t => applyChanges (dmcl upd t) rest
+    match nestedSet upd p (leafSet v) with
+    | .ok u => applyChanges u rest
     | .error e => .error e
 
 /-- the `while self.timeline and time >= self.timeline[0][0]` loop: returns the update and
